@@ -358,4 +358,71 @@ def qlAttrsAfter : QLAttrs → List QLStep → List QLAttrs
   | _, [] => []
   | a, s :: t => s.set.getD a :: qlAttrsAfter (s.set.getD a) t
 
+/-! ### the consumer: `model_save_quantized_weights` (qkeras/utils.py), one (quantizer, weight) pair
+
+  For every layer the export pairs `layer.get_quantizers()` with `layer.get_weights()`, and for each pair
+    `weight = K.eval(quantizer(tf.constant(weight)))`                       -- ONE call of the object
+  then, for `quantized_bits` with `alpha == "auto_po2"`,
+    `m = 2^(bits - keep_negative)`, `m_i = 2^integer`,
+    `scale = K.cast_to_floatx(quantizer.scale [.numpy()])`                   -- READ after that call
+    `hw_weight = weight * m / m_i`, `scale = scale * m_i / m`                -- NEW arrays
+  and `hw_weight = weight` for every other alpha / class.  The quantizer object is an INPUT of the export:
+  apart from the call it makes (which assigns `self.scale` unless `freeze_scale`) the export assigns
+  nothing on it and must not write through `quantizer.scale` (a frozen scale is a numpy array the export
+  holds a reference to).  `qbExport` models the step as written; `QBEvent` / `qbRunEv` put exports into the
+  histories of one object (Props.C05: "an export is a call, for the object").
+  Whether `hw_weight * scale` reproduces the weight is C14's clause (it does iff the exposed scale is 1).
+-/
+
+/-- what the export returns for one (quantizer, weight) pair -/
+structure QBExported where
+  weight : List Rat            -- software-format weight: the quantizer's output (after the straight-through sum)
+  hw : List Rat                -- auto_po2: `weight * m / m_i`; otherwise the weight itself
+  scales : Option (List Rat)   -- auto_po2: `scale * m_i / m` at every position of the weight; otherwise `[]`
+  deriving Repr
+
+/-- one pair of the export: (object afterwards, result of the call it makes, returned entries) -/
+def qbExport (c : Fl) (o : QBObj) (chLast : Bool) (shape : List Nat) (w : List Rat) :
+    QBObj × Except Err (List QElt) × Option QBExported :=
+  let r := qbCall c o chLast shape w
+  (r.1, r.2,
+    match r.2 with
+    | .error _ => Option.none
+    | .ok es =>
+      let wq := es.map fun e => ste c e.x e.y
+      let cfg := o.attrs.cfg chLast
+      if o.attrs.po2 then
+        let sc := match r.1.scale with
+          | some t => bcastTo t shape
+          | Option.none => []
+        some { weight := wq, hw := wq.map fun v => c.r (c.r (v * cfg.m) / cfg.mi),
+               scales := some (sc.map fun s => c.r (c.r (s * cfg.mi) / cfg.m)) }
+      else some { weight := wq, hw := wq, scales := Option.none })
+
+/-- an event in the life of one quantizer object: a direct call, or an export of the model that holds it
+    (the step carries the layer weight of that moment) -/
+inductive QBEvent where
+  | call (s : QBStep)
+  | save (s : QBStep)      -- `model_save_quantized_weights` reaches the object with the layer weight `s.x`
+  deriving Repr
+
+def QBEvent.step : QBEvent → QBStep
+  | .call s => s
+  | .save s => s
+
+/-- a history of calls AND exports on ONE object -/
+def qbRunEv (c : Fl) : QBObj → List QBEvent → List (QBObj × Except Err (List QElt) × Option QBExported)
+  | _, [] => []
+  | o, .call s :: t =>
+    let r := qbCall c (o.reconf s.set) s.chLast s.shape s.x
+    (r.1, r.2, Option.none) :: qbRunEv c r.1 t
+  | o, .save s :: t =>
+    let r := qbExport c (o.reconf s.set) s.chLast s.shape s.x
+    r :: qbRunEv c r.1 t
+
+/-- `quantized_linear` as a weight quantizer: the export takes its last branch (`hw_weight = weight`), so for
+    the object it is exactly the one call -/
+def qlExport (c : Fl) (o : QLObj) (chLast : Bool) (shape : List Nat) (w : List Rat) : QLObj × List LElt :=
+  qlCall c o chLast shape w
+
 end QKV.AF
